@@ -18,6 +18,7 @@ import c04
 import c05
 import c06
 from common import Report
+from mir import place_local as place_local_
 from mir import CheckerError, op_local
 
 WORKER = "s4::exec_fileprocessor_thread"
@@ -429,6 +430,135 @@ def run(prog, rep, tier):
         if gaps:
             rep.violation(R714, tp.replace("::__static_ref_initialize", "") + "|gap", "%s has no entry for block lengths %s..%s (range ends are exclusive); the lookup is unwrapped, so a file whose block zero has such a length "
                           "(e.g. exactly %s bytes, or any larger file read with --blocksz %s) panics and the process aborts before any source is printed" % (tp.split("::")[-2], gaps[0][0], gaps[0][1], gaps[0][0], gaps[0][0]))
+
+    # ------------------------------------------------------------ R7.15 accessors that panic on a placeholder summary are called only behind the placeholder test
+    # A file whose reader could not even be constructed (truncated .gz, random bytes named .xz, a bogus
+    # .evtx) is reported with a `Summary` whose reader data is the placeholder variant `Dummy`.  Several
+    # accessors of Summary *panic* on that variant (release builds abort: SIGABRT, the other sources lose
+    # their output).  Every call of such an accessor from outside Summary lies behind the false edge of
+    # an `is_dummy()` test.  The accessor set is computed: a function of Summary whose match on
+    # `readerdata` has only panicking paths in the Dummy arm, or that calls such a function unguarded.
+    R715 = rep.rule("R7.15", "Summary accessors that panic on the Dummy placeholder are reached only behind a failed is_dummy() test")
+    SUMP = "s4lib::readers::summary::Summary::"
+    srd = prog.facts.adts.get("s4lib::readers::summary::SummaryReaderData")
+    if not srd:
+        raise CheckerError("R7.15: enum SummaryReaderData not found")
+    dummy_idx = [i_ for i_, v_ in enumerate(srd["variants"]) if v_["name"] == "Dummy"]
+    if not dummy_idx:
+        raise CheckerError("R7.15: SummaryReaderData has no placeholder variant named Dummy")
+    dummy_idx = dummy_idx[0]
+
+    def _panics_only(b_, bb_):
+        r_ = b_.reachable(bb_)
+        return not any(b_.term(x_)[0] == "return" for x_ in r_) and any(b_.term(x_)[0] == "call" and "panic" in b_.term(x_)[1].get("d", "") for x_ in r_)
+    panicky = set()
+    for sb_ in prog.bodies():
+        if not sb_.path.startswith(SUMP) or "{closure" in sb_.path:
+            continue
+        for bb_ in sorted(sb_.live):
+            t_ = sb_.term(bb_)
+            if t_[0] != "switch":
+                continue
+            dl_ = op_local(t_[1])
+            src_ = [st for st in sb_.stmts(bb_) if st[0] == "=" and st[1] == [dl_] and st[2][0] == "discr"]
+            if not src_:
+                continue
+            pl_ = src_[0][2][1]
+            on_rd_ = any(isinstance(e_, list) and e_[0] == "." and e_[2] == "readerdata" for e_ in pl_)
+            if not on_rd_:
+                # `match &self.readerdata`: the discriminant is read through a reference temporary
+                for (db_, di_, drv_) in sb_.defs.get(pl_[0], []):
+                    if di_ != "call" and drv_[0] == "ref" and any(isinstance(e_, list) and e_[0] == "." and e_[2] == "readerdata" for e_ in drv_[2]):
+                        on_rd_ = True
+            if not on_rd_:
+                continue
+            arm_ = [tb for v_, tb in t_[2] if v_ == dummy_idx]
+            if arm_ and _panics_only(sb_, arm_[0]):
+                panicky.add(sb_.path)
+    changed = True
+    while changed:
+        changed = False
+        for sb_ in prog.bodies():
+            if not sb_.path.startswith(SUMP) or sb_.path in panicky or "{closure" in sb_.path:
+                continue
+            for c in sb_.live_calls():
+                if c.d in panicky and not any(g_.d.endswith("::is_dummy") and sb_.dominates(g_.bb, c.bb) for g_ in sb_.live_calls()):
+                    panicky.add(sb_.path)
+                    changed = True
+                    break
+    rep.examined(R715, "Summary|panicking-accessors", sample={"accessors_that_panic_on_Dummy": sorted(x_.split("::")[-1] for x_ in panicky)})
+    if len(panicky) < 1:
+        raise CheckerError("R7.15: no Summary accessor panics on Dummy (anchor: Summary::blockreader)")
+
+    def _false_edge(b_, g_):
+        """the block entered when the is_dummy() call g_ returned false"""
+        r_ = place_local_(g_.dest)
+        bb_ = g_.target
+        neg_ = False
+        for _ in range(4):
+            if bb_ is None:
+                return None
+            for st in b_.stmts(bb_):
+                if st[0] == "=" and st[2][0] == "un" and st[2][1] == "Not" and op_local(st[2][2]) == r_:
+                    r_ = st[1][0]
+                    neg_ = not neg_
+                elif st[0] == "=" and st[2][0] == "use" and op_local(st[2][1]) == r_ and len(st[1]) == 1:
+                    r_ = st[1][0]
+            t_ = b_.term(bb_)
+            if t_[0] == "switch" and op_local(t_[1]) == r_:
+                zero_ = [tb for v_, tb in t_[2] if v_ == 0]
+                return (t_[3] if neg_ else (zero_[0] if zero_ else None))
+            if t_[0] == "goto":
+                bb_ = t_[1]
+                continue
+            return None
+        return None
+    n715 = 0
+    for sb_ in prog.bodies():
+        if not (sb_.path.startswith("s4::") or sb_.path.startswith("s4lib::")) or "_tests" in sb_.path or sb_.path.startswith(SUMP):
+            continue
+        guards_ = [g_ for g_ in sb_.live_calls() if g_.d.endswith("::is_dummy")]
+        for c in sb_.live_calls():
+            if c.d not in panicky:
+                continue
+            n715 += 1
+            ok_ = False
+            for g_ in guards_:
+                if not sb_.dominates(g_.bb, c.bb):
+                    continue
+                fe_ = _false_edge(sb_, g_)
+                if fe_ is not None and (fe_ == c.bb or sb_.must_pass(g_.bb, c.bb, [fe_])):
+                    ok_ = True
+                    break
+            rep.examined(R715, "%s|%s#%d" % (sb_.path, c.d.split("::")[-1], n715), sample={"caller": sb_.path, "line": c.line, "accessor": c.d.split("::")[-1], "behind_failed_is_dummy_test": ok_})
+            if not ok_:
+                rep.violation(R715, "%s|%s|unguarded" % (sb_.path, c.d.split("::")[-1]), "%s (line %d) calls Summary::%s(), which panics when the summary is the Dummy placeholder, without first having seen is_dummy() return false; "
+                              "a file whose reader cannot be constructed (a 7-byte .gz, random bytes named .xz, a bogus .evtx) has exactly such a summary: the run aborts with SIGABRT and the other sources lose their output"
+                              % (sb_.path.split("::")[-1], c.line, c.d.split("::")[-1]))
+    if n715 < 3:
+        raise CheckerError("R7.15: only %d calls of the panicking accessors found outside Summary" % n715)
+
+    # ------------------------------------------------------------ R7.16 the emergency stop of the journal field enumeration counts every round
+    # The journal renderers enumerate an entry's fields in `while counter < LIMIT` loops; the counter is
+    # the only thing that ends the loop when libsystemd keeps answering with an error for the same entry
+    # (a DATA object whose flags claim a compression that its payload does not have: -ENOMEM / -EBADMSG on
+    # every call).  Every way round such a loop passes the increment; an error arm that `continue`s past
+    # it spins forever, the worker never sends its summary and the whole run hangs.
+    import ctrloop
+    R716 = rep.rule("R7.16", "counter-bounded enumeration loops of the journal reader increment the counter on every way round")
+    n716 = 0
+    for r_ in ctrloop.scan(prog, only=lambda p_: p_.startswith("s4lib::readers::journalreader::")):
+        if not any("sd_journal" in d_ for d_ in r_["callees"]):
+            continue
+        n716 += 1
+        smp_ = dict(r_)
+        smp_.pop("callees")
+        rep.examined(R716, "%s|%s" % (r_["fn"], r_["counter"]), sample=smp_)
+        if r_["back_edges_that_can_skip_the_increment"]:
+            rep.violation(R716, "%s|%s|skipped-increment" % (r_["fn"], r_["counter"]), "%s: the loop at line %s is bounded only by `%s %s %s`, but a path back to its head (from line %s) does not increment the counter; "
+                          "when libsystemd answers every enumeration call for an entry with an error the reader spins forever and the run never ends" % (r_["fn"], r_["line"], r_["counter"], r_["cmp"], r_["bound"], r_["back_edges_that_can_skip_the_increment"][0]))
+    if n716 < 2:
+        raise CheckerError("R7.16: only %d counter-bounded enumeration loops found in the journal reader" % n716)
 
     return rep.finish(
         "Static necessary-condition check against crashes/hangs from file content: (R7.1) for all strings of all 173 date regexes the converter's "
